@@ -7,6 +7,7 @@ import (
 	"os"
 	"path/filepath"
 	"sync"
+	"syscall"
 
 	"github.com/tonistiigi/fsutil"
 	"github.com/tonistiigi/fsutil/types"
@@ -77,6 +78,7 @@ func c06Run(c *core.Ctx) *core.Result {
 		return r
 	}
 	R := c.R
+	fdLimited := false
 	viewKind := core.Pick(R, []string{"disk", "disk", "synthetic", "fanout", "subdir", "filtered"})
 	mode := core.Pick(R, []string{"all", "reverse", "subset", "burst", "burst", "onarrival", "onarrival", "none"})
 	if R.P(1, 200) {
@@ -233,6 +235,21 @@ func c06Run(c *core.Ctx) *core.Result {
 			sf.ChunkMax = core.Pick(R, []int{1000, 5000, 32768})
 		}
 		fs = sf
+		if core.NewRand(core.Mix(c.Seed, "C06-fd-limit", c.Index)).P(1, 3) {
+			// the same view from the disk, with room for only a few dozen
+			// more open files in the process: a sender holds a file open
+			// while it sends it, not longer
+			dir := filepath.Join(c.Dir, "src-fanout")
+			if os.Mkdir(dir, 0755) == nil && tree.Materialise(dir, t) == nil {
+				if dfs, err := fsutil.NewFS(dir); err == nil {
+					if snap, err := tree.Snapshot(dir, tree.SnapOpt{}); err == nil {
+						fs, t = dfs, snap
+						fdLimited = true
+						r.Count("fanout_sessions_with_a_descriptor_limit", 1)
+					}
+				}
+			}
+		}
 		want = t.Entries
 		for _, e := range t.Entries {
 			content[e.Path] = e.Data
@@ -243,16 +260,44 @@ func c06Run(c *core.Ctx) *core.Result {
 	if viewKind == "hugefanout" {
 		rr.MaxReq = 600
 	}
+	// a tenth of the sessions that request after the listing use a receiver
+	// with one thread of control (all requests are written before anything
+	// else is read); with more requests than the sender's pipeline and the
+	// stream buffer hold this exhibits known finding K11
+	if qr := core.NewRand(core.Mix(c.Seed, "C06-sequential", c.Index)); mode != "onarrival" && invalid == "" && viewKind != "hugefanout" && qr.P(1, 10) {
+		rr.Sequential = true
+		r.Count("sessions_with_a_sequential_receiver", 1)
+	}
 	prog := &progressRec{}
 	gr := R.Fork()
 	cfg := wire.Config{Cap: capn}
 	if R.P(1, 2) {
 		cfg.Hook = func(end, op string, idx int64, phase int) { jitter(gr, 20) }
 	}
-	desc := fmt.Sprintf("view=%s script=%s reqlinks=%v invalid=%q cap=%d", viewKind, mode, rr.ReqLinks, invalid, capn)
+	desc := fmt.Sprintf("view=%s script=%s reqlinks=%v invalid=%q cap=%d sequential=%v", viewKind, mode, rr.ReqLinks, invalid, capn, rr.Sequential)
 	r.Sample = map[string]any{"config": desc, "entries": len(want)}
+	var oldLimit syscall.Rlimit
+	if fdLimited {
+		if ents, err := os.ReadDir("/proc/self/fd"); err == nil && syscall.Getrlimit(syscall.RLIMIT_NOFILE, &oldLimit) == nil {
+			syscall.Setrlimit(syscall.RLIMIT_NOFILE, &syscall.Rlimit{Cur: uint64(len(ents) + 48), Max: oldLimit.Max})
+		} else {
+			fdLimited = false
+		}
+	}
 	res := runSync(syncOpt{Cfg: cfg, Src: fs, Progress: prog.fn,
 		RecvFn: func(ctx context.Context, s fsutil.Stream) error { return rr.run(ctx, s) }})
+	if fdLimited {
+		syscall.Setrlimit(syscall.RLIMIT_NOFILE, &oldLimit)
+	}
+	if rr.Sequential && res.Deadlock {
+		rr.mu.Lock()
+		nreq := len(rr.reqOrder)
+		rr.mu.Unlock()
+		if nreq > 132 {
+			r.ViolateD("sender-stops-reading-requests", map[string]any{"config": desc, "requests_written": nreq}, "%s: a receiver that writes all its requests before it reads content again deadlocks with the sender after %d requests: the sender's four workers and its queue of 128 are full, its request loop is blocked in queue() and nobody reads the stream any more", desc, nreq)
+			return r
+		}
+	}
 	if checkHang(r, res, desc) {
 		return r
 	}
